@@ -8,6 +8,7 @@ import Just.Model.Search
 import Just.Model.Dotenv
 import Just.Model.Unstable
 import Just.Model.Analyzer
+import Just.Model.Listing
 open Lean
 
 namespace Just.Run
@@ -154,3 +155,16 @@ def moduleFromJson (j : Json) : Except String Module := do
   let ic ← j.getObjValAs? Bool "ignoreComments"
   return { assigns := assigns, recipes := recipes, ignoreComments := ic }
 end Just.Analyzer
+
+namespace Just.Listing
+deriving instance FromJson, ToJson for Recipe
+deriving instance FromJson, ToJson for Alias
+
+partial def modFromJson (j : Json) : Except String Mod := do
+  let name ← j.getObjValAs? String "name"
+  let recipes : List Recipe ← fromJson? (← j.getObjVal? "recipes")
+  let aliases : List Alias ← fromJson? (← j.getObjVal? "aliases")
+  let subsJ ← (← j.getObjVal? "subs").getArr?
+  let subs ← subsJ.toList.mapM modFromJson
+  return .mk name recipes aliases subs
+end Just.Listing
